@@ -173,7 +173,7 @@ class C09Engine(GenEngineBase):
     def make_case(self, seed, tier="quick"):
         kn = stream(seed, "interp")
         cfg = dict(targets=list(TARGETS) + list(self.extra_targets), n_requests=30 if tier == "quick" else 45, allow_faults=True,
-                   shared=True, debug_levels=DEBUG_LEVELS, generated_programs=0.08 if tier == "quick" else 0.2)
+                   shared=True, debug_levels=DEBUG_LEVELS, generated_programs=0.08 if tier == "quick" else 0.2, deep_stack=0.12)
         return {"seed": seed, "hashseed": kn.choice([0, 1, 2, 3, kn.randrange(2**32), kn.randrange(2**32)]),
                 "history": H.gen_history(seed, self.universe, cfg)}
 
